@@ -5,6 +5,10 @@ import DimodProofs.EnumEnergy
 import DimodProofs.EnumPoly
 import DimodProofs.EnumInit
 import DimodProofs.EnumPost
+import DimodProofs.Anneal
+import DimodProofs.AnnealDelta
+import DimodProofs.AnnealColor
+import DimodProofs.AnnealSweep
 
 /-! # C07 — samplers and composites report each row's true energy over the right variables
 
@@ -14,8 +18,10 @@ Model: `DimodModel/Enumerate.lean` (mirror of `reference/samplers/exact_solver.p
 
 Child samplers are parameters: a theorem about a composite assumes of its child exactly what the
 corresponding theorem proves of the composite (every returned row carries the energy of the problem the
-child was given), so the statements compose along any stack.  Rows of the stochastic samplers are not
-modelled (validated by the harness only). -/
+child was given), so the statements compose along any stack.  The stochastic samplers (`DimodModel/Anneal.lean`) are
+state machines over an explicit stream of random draws — the pseudo-random generator is the only contract — and
+their theorems hold for every stream; on every run the real samplers are executed with the generator replaced by
+recorded draws and the model is fed the same draws. -/
 
 namespace C07
 open Enum
@@ -232,6 +238,91 @@ theorem tracking_composite (child : Bqm → List Row) (log : List (Bqm × List R
     (trackingSample child log m).1 = child m ∧ (trackingSample child log m).2 = log ++ [(m, child m)] :=
   trackingSample_spec child log m
 
+/-! ## the stochastic samplers, for every stream of random draws -/
+
+/-- **one annealing run** (`ising_simulated_annealing`: β schedule, greedy colouring, random initial guess, per sweep
+    `energy_diff_h`, per colour class `energy_diff_J` and the acceptance test, as coded): whatever the draws and
+    whatever the options, if it returns, the final spins are over exactly the keys of `h`, in order, each −1 or +1 -/
+theorem sa_run_spins (h : List (Label × Rat)) (J : List (Label × Label × Rat)) (br : Option (Rat × Rat)) (ns : Int) (np : Bool)
+    (d : Draws) (sp : List (Label × Rat)) (hr : isingSA h J br ns np d = .ok sp) :
+    sp.map (·.1) = h.map (·.1) ∧ ∀ p ∈ sp, p.2 = 1 ∨ p.2 = -1 :=
+  isingSA_spec h J br ns np d sp hr
+
+/-- **the annealer's bookkeeping equals recomputation**: the energy difference the acceptance test uses for a variable,
+    `energy_diff_h[v] + energy_diff_J[v]` as coded (own bias times spin; over the adjacency *set* of `v`, both
+    orientations of the dict key looked up), is exactly the change of `ising_energy(spins, h, J)` when the spin of `v`
+    is flipped and every other spin is kept — for `h` a dict (distinct keys) and `J` as `to_ising()` delivers it (no
+    self-loops, every unordered pair at most once), whatever the spins -/
+theorem sa_delta_is_energy_change (h : List (Label × Rat)) (J : List (Label × Label × Rat)) (spins : List (Label × Rat)) (v : Label)
+    (hh : (h.map (·.1)).Nodup) (hJ : SimpleJ J) :
+    diffH h spins v + diffJ J spins v = isingE h J (flipSpin (dictGet spins) v) - isingE h J (dictGet spins) :=
+  delta_is_energy_change h J spins v hh hJ
+
+/-- **greedy_coloring, as coded** (first variable with the fewest remaining colours, its smallest colour, that colour
+    struck from its uncoloured neighbours): the loop never gets stuck, every variable ends up in exactly one colour
+    class, and two variables of one class are never adjacent — so within a class the energy differences computed before
+    the flips stay valid while the class is processed, and a variable is visited exactly once per sweep -/
+theorem greedy_coloring_total_and_proper (h : List (Label × Rat)) (J : List (Label × Label × Rat))
+    (hh : (h.map (·.1)).Nodup) (hJ : ∀ t ∈ J, t.1 ≠ t.2.1) :
+    ((colouring (colorClasses h J)).map (·.1)).Perm (h.map (·.1)) ∧
+    (∀ c ∈ colorClasses h J, ∀ u ∈ c.2, ∀ w ∈ c.2, w ∉ nbrs J u) ∧
+    (∀ v w, w ∈ nbrs J v ↔ v ∈ nbrs J w) :=
+  ⟨colorClasses_total h J hh hJ, colorClasses_proper h J hh hJ, fun v w => nbrs_symm J v w⟩
+
+/-- **inside a sweep the acceptance test uses the true energy change**: when the colour class of `v` is reached (state
+    `sp`: the earlier classes of `greedy_coloring` processed from the sweep's initial state `sp0`, whatever the draws and β),
+    `energy_diff_h[v]` — computed once at the start of the sweep — plus `energy_diff_J[v]` — computed from `sp` — is exactly
+    `ising_energy(sp with v flipped) − ising_energy(sp)`: the spin of `v` has not been touched yet because `v` lies in no
+    earlier class -/
+theorem sa_sweep_test_is_true_delta (h : List (Label × Rat)) (J : List (Label × Label × Rat)) (hh : (h.map (·.1)).Nodup)
+    (hJ : SimpleJ J) (pre post : List (Nat × List Label)) (c : Nat × List Label)
+    (hc : colorClasses h J = pre ++ c :: post) (beta : Option Rat) (draw : Label → Rat) (sp0 : List (Label × Rat))
+    (v : Label) (hv : v ∈ c.2) :
+    let sp := pre.foldl (fun sp c => classStep J beta (diffH h sp0) draw sp c.2) sp0
+    diffH h sp0 v + diffJ J sp v = isingE h J (flipSpin (dictGet sp) v) - isingE h J (dictGet sp) :=
+  sweep_test_is_true_delta h J hh hJ pre post c hc beta draw sp0 v hv
+
+/-- **SimulatedAnnealingSampler.sample**, whatever the draws: one row per read; every row is over exactly the
+    problem's variables, every value lies in the domain of the problem's vartype, and the reported energy is the
+    submitted problem's energy of that row (`h, J` = the Ising form `bqm.to_ising()` hands to the annealer: it has an
+    entry for every label of the problem) -/
+theorem sa_sampler_rows (m : Bqm) (h : List (Label × Rat)) (J : List (Label × Label × Rat)) (br : Option (Rat × Rat)) (ns : Int)
+    (np : Bool) (reads : List Draws) (out : List Row) (hs : saSample m h J br ns np reads = .ok out)
+    (hkeys : ∀ l ∈ ({ m.toSpin with off := 0 } : Bqm).labels, l ∈ h.map (·.1)) :
+    out.length = reads.length ∧
+    ∀ r ∈ out, r.energy = m.energy r.val ∧ r.x.map (·.1) = h.map (·.1) ∧ ∀ p ∈ r.x, InVartype m.spin p.2 :=
+  saSample_rows m h J br ns np reads out hs hkeys
+
+/-- … and what it refuses: no reads, a non-positive β or number of sweeps (`ValueError`); a single sweep divides by
+    zero in the schedule — an exception for Python floats, a `nan` β (no flip at all) for NumPy scalars -/
+theorem sa_sampler_refusals (m : Bqm) (h : List (Label × Rat)) (J : List (Label × Label × Rat)) (br : Option (Rat × Rat)) (ns : Int) (np : Bool) :
+    saSample m h J br ns np [] = .error .value ∧
+    (∀ b0 b1 f, ns ≤ 0 → betaSchedule b0 b1 ns f = .error .value) ∧
+    (∀ b0 b1, betaSchedule b0 b1 1 false = .error .zerodiv ∧ betaSchedule b0 b1 1 true = .ok [none]) ∧
+    (∀ a b, (a ≤ 0 ∨ b ≤ 0) → betaEnds h J (some (a, b)) = .error .value) :=
+  saSample_refuses m h J br ns np
+
+/-- **RandomSampler.sample**, whatever the PRNG delivers (`np_rand.choice(values, size=(num_reads, n))` as an index
+    stream): `num_reads` rows, each over exactly the problem's variables in their order, each value in the domain of
+    the problem's vartype, each energy the submitted problem's energy of that row; `num_reads < 1` is refused -/
+theorem random_sampler_rows (m : Bqm) (labels : List Label) (nr : Nat) (σ : Nat → Rat) (hlab : ∀ l ∈ m.labels, l ∈ labels) :
+    (nr < 1 → randomSample m labels nr σ = .error ()) ∧
+    ∀ out, randomSample m labels nr σ = .ok out →
+      out.length = nr ∧
+      ∀ ro ∈ out, ro.energy = m.energy ro.val ∧ ro.x.map (·.1) = labels ∧ ∀ p ∈ ro.x, InVartype m.spin p.2 :=
+  randomSample_spec m labels nr σ hlab
+
+/-- **sample_hising / sample_hubo** (`PolySampler`): the rows carry the energy of the polynomial built from the
+    arguments — `Σ h_v·x_v + Σ_J b·Π x` when no term of `J` is a single variable of `h`; **NullSampler** returns no rows -/
+theorem hising_hubo_null (child : Poly → List Row) (hchild : ∀ q, ∀ r ∈ child q, r.energy = polyEnergy r.val q)
+    (h : List (Label × Rat)) (J H : Poly) (m : Bqm) :
+    (∀ r ∈ sampleHising child h J, r.energy = polyEnergy r.val (fromHising h J)) ∧
+    (∀ r ∈ sampleHubo child H, r.energy = polyEnergy r.val H) ∧
+    ((∀ p ∈ h, ∀ t ∈ J, t.1 ≠ [p.1]) → ∀ x, polyEnergy x (fromHising h J) = linE x h + polyEnergy x J) ∧
+    nullSample m = [] :=
+  ⟨(hising_hubo_energy child hchild h J H).1, (hising_hubo_energy child hchild h J H).2.1,
+   (hising_hubo_energy child hchild h J H).2.2, rfl⟩
+
 /-- D1-style slip (inverse permutation in the re-indexing): values end up under the wrong labels -/
 theorem d1_witness :
     labelled [.str "a", .str "b", .str "c"] (reindexRowInverse [.str "a", .str "b", .str "c"] [.str "b", .str "c", .str "a"] [1, 2, 3]) (.str "a") = 2 ∧
@@ -261,5 +352,12 @@ example : intDomain (1/2) 3 = [1, 2, 3] := by decide +kernel
 example : expandInitialState [⟨.str "a", .str "b", .str "p", some (.str "x", 2, 2, 2)⟩] [(.str "a", 1), (.str "b", -1)]
     = [(.str "a", 1), (.str "b", -1), (.str "p", -1), (.str "x", 1)] := by decide +kernel
 example : OneConst [([], 5), ([.str "a"], 1)] := by unfold OneConst; decide +kernel
+/-- an annealing run over explicit draws: two coupled spins, both start at −1 (index draws 0), the acceptance draw
+    `log p = −1/2` flips `a` in the first sweep (`Δh + ΔJ = −6`, threshold `−β·Δ = 3`) and nothing afterwards -/
+example : isingSA [(.str "a", -1), (.str "b", 0)] [(.str "a", .str "b", 2)] (some (1/2, 1)) 2 false
+    ⟨fun _ => 0, fun _ _ => -1/2⟩ = .ok [(.str "a", 1), (.str "b", -1)] := by decide +kernel
+example : colorClasses [(.str "a", 0), (.str "b", 0), (.str "c", 0)] [(.str "a", .str "b", 1), (.str "b", .str "c", 1)]
+    = [(0, [.str "a", .str "c"]), (1, [.str "b"])] := by decide +kernel
+example : randomRows false 2 2 (fun i => if i = 1 then 1 else 0) = [[0, 1], [0, 0]] := by decide +kernel
 
 end C07
